@@ -73,6 +73,11 @@ def gen(rnd, idx=0, nfiles=None, ntypes=None, ncmds=None, nevents=None, validato
             nt = "Newtype%d_%d" % (idx, k)
             items.append(Item("type", nt, "#[derive(Serialize, Deserialize)]\npub struct %s(pub %s);\n\n" % (nt, rnd.choice(["u32", "String", "u32, pub String"]))))
             items.append(Item("command", "takes_%s" % nt.lower(), rg.command_src("takes_%s" % nt.lower(), [("id", nt), ("other", rnd.choice(tnames))], "Option<%s>" % rnd.choice(tnames))))
+    if rnd.random() < 0.3:
+        # a serde struct that nothing reaches, named like the parameter object of one of the commands: not part of the surface, so
+        # no option that only adds output of its own (verbosity, the dependency graph) may bring it into play
+        items.append(Item("command", "fetch_report_%d" % idx, rg.command_src("fetch_report_%d" % idx, [("since", "u64"), ("kind", rnd.choice(tnames))], "Vec<String>")))
+        items.append(Item("type", "FetchReport%dParams" % idx, rg.struct_src("FetchReport%dParams" % idx, [("unrelated", "bool")])))
     for e in range(nevents):
         nm = "notify_%d_%d" % (idx, e)
         pt = rnd.choice(tnames)
